@@ -43,7 +43,7 @@ func init() {
 		Stages: []*fw.Stage{
 			{
 				Name: "sweep",
-				N:    func(t fw.Tier) uint64 { return sweepTotal() * map[fw.Tier]uint64{fw.Quick: 24, fw.Thorough: 400}[t] },
+				N:    func(t fw.Tier) uint64 { return sweepTotal() * map[fw.Tier]uint64{fw.Quick: 24, fw.Thorough: 3000}[t] },
 				Run: func(c *fw.Case) {
 					k := int(c.Idx % sweepTotal())
 					for _, t := range ts().Types {
@@ -59,7 +59,7 @@ func init() {
 			},
 			{
 				Name: "random",
-				N:    q(150000, 6000000),
+				N:    q(150000, 50000000),
 				Run:  func(c *fw.Case) { c01RoundTrip(c, libTypeIdx(ts(), c.Idx), -1, 0) },
 			},
 			{
@@ -72,7 +72,7 @@ func init() {
 			},
 			{
 				Name: "statusreport",
-				N:    q(20000, 500000),
+				N:    q(20000, 5000000),
 				Run:  c01StatusReport,
 			},
 		},
